@@ -79,11 +79,21 @@ def run(st, tier, seed):
                 or progen.gen_component_bundle(rng, size=4) for _ in range(4)]
         if b is None:
             continue
+        if any(k.endswith(".sys") for k in b.texts) and rng.random() < 0.6:
+            # the same template name also exists in a directory later on the include list (several -I directories):
+            # the search order must be the command-line order under every hash seed
+            from props.c02 import shadowed
+            b = shadowed(rng, b) or b
+            extra = ["inc_%s" % x for x in ("q", "k", "z", "b")]
+            b.includes = list(b.includes) + extra[:rng.randint(1, 4)]
+            res.count("duplicate-template-on-include-path")
         with core.scratch("pepper_c18_") as root:
             progen.write_bundle(b, os.path.join(root, "proj"))
             for k, h in enumerate(hist):
                 progen.write_bundle(h, os.path.join(root, "hist%d" % k))
             os.makedirs(os.path.join(root, "proj", "deep", "er"), exist_ok=True)
+            for inc in b.includes:
+                os.makedirs(os.path.join(root, "proj", inc), exist_ok=True)
             outs = {}
             for fmt in ("pil", "des"):
                 for c in range(nconf):
